@@ -326,8 +326,12 @@ def k11_class(case, detail, file_text):
             pos = canonical_position(path)
             n_classes = len(classes)
             before, after = _binders(tree, name, st.lineno)
-            if before or after:
-                bind = "+".join(["bound-before-by:" + "+".join(sorted(before))] * bool(before) + ["bound-after-by:" + "+".join(sorted(after))] * bool(after))
+            if before:
+                # the cause of the crash is the EARLIER non-class binding (Context.add keeps the first symbol of a
+                # name); what re-binds the name afterwards is irrelevant to it and would only multiply the labels
+                bind = "bound-before-by:" + "+".join(sorted(before))
+            elif after:
+                bind = "bound-after-by:" + "+".join(sorted(after))
             elif n_classes > 1:
                 bind = "also-bound-by:class"
             elif hasattr(builtins, name):
